@@ -1,8 +1,8 @@
 #!/bin/sh
-# import_seed.sh <CNN> <name>: copies patch/demo/meta from /tmp/seed-<CNN> into /verif/seeded/<name>, making the demo location-independent
-S=/tmp/seed-$1; D=/verif/seeded/$2
+# import_seed.sh <scratch-worktree> <name>: copies patch/demo/meta from the worktree into /verif/seeded/<name>, making the demo location-independent
+S=$1; D=/verif/seeded/$2
 mkdir -p "$D"
 cp "$S/patch.diff" "$D/patch.diff"
-sed "s#'/tmp/seed-$1'#__import__('os').environ.get('SEED_REPO', '/repo')#g; s#\"/tmp/seed-$1\"#__import__('os').environ.get('SEED_REPO', '/repo')#g" "$S/demo.py" > "$D/demo.py"
+sed "s#'$S'#__import__('os').environ.get('SEED_REPO', '/repo')#g; s#\"$S\"#__import__('os').environ.get('SEED_REPO', '/repo')#g; s#'$S/'#__import__('os').environ.get('SEED_REPO', '/repo') + '/'#g" "$S/demo.py" > "$D/demo.py"
 cp "$S/meta.json" "$D/meta.json"
-grep -n "seed-$1" "$D/demo.py" | head -3
+grep -n "$S" "$D/demo.py" | head -3
